@@ -32,7 +32,7 @@ type Entry struct {
 
 // Fault is a fault injected at a request index.
 type Fault struct {
-	Kind string // status404 | status500 | transport | stall | truncate
+	Kind string // status404 | status500 | transport | transport-ctx | transport-deadline | stall | truncate | body-ctx
 }
 
 // Response is what a handler returns.
@@ -125,6 +125,14 @@ func (s *Server) RoundTrip(req *http.Request) (*http.Response, error) {
 		case "transport":
 			finish(0, f.Kind)
 			return nil, fmt.Errorf("injected transport error")
+		case "transport-ctx":
+			// the failure of a transport whose own session / dialer context went away: the error chain
+			// contains context.Canceled although neither the request nor the client was cancelled
+			finish(0, f.Kind)
+			return nil, fmt.Errorf("injected transport error: session closed: %w", context.Canceled)
+		case "transport-deadline":
+			finish(0, f.Kind)
+			return nil, fmt.Errorf("injected transport error: dial: %w", context.DeadlineExceeded)
 		case "status404", "status500":
 			st := 404
 			if f.Kind == "status500" {
@@ -181,11 +189,34 @@ func (s *Server) RoundTrip(req *http.Request) (*http.Response, error) {
 			if len(body) > 1 {
 				body = body[:len(body)/2]
 			}
+		case "body-ctx":
+			finish(status, f.Kind)
+			resp := mkResp(req, status, nil, r.CType)
+			resp.Body = &errBody{head: body[:len(body)/2], err: fmt.Errorf("injected body error: stream reset: %w", context.Canceled)}
+			resp.ContentLength = int64(len(body))
+			return resp, nil
 		}
 	}
 	finish(status, f.Kind)
 	return mkResp(req, status, body, r.CType), nil
 }
+
+// errBody delivers head and then fails.
+type errBody struct {
+	head []byte
+	err  error
+}
+
+func (b *errBody) Read(p []byte) (int, error) {
+	if len(b.head) == 0 {
+		return 0, b.err
+	}
+	n := copy(p, b.head)
+	b.head = b.head[n:]
+	return n, nil
+}
+
+func (b *errBody) Close() error { return nil }
 
 func mkResp(req *http.Request, status int, body []byte, ctype string) *http.Response {
 	h := http.Header{}
